@@ -13,12 +13,16 @@ RULE = (
     "recv_measure, recv_rsp[_with_info]) x pairs 1..4 x time_unit (all members) / max_time x named bases / rotation triples "
     "0..31 / random-basis sets (all members, both sides) x socket ids x remote node x hardware {generic, NV} x sequential+"
     "post-routine; responses with pairwise different field values (small and large counters), native or as qlink-interface 1.0 objects (Bell state by enum or plain integer); "
-    "a quarter of the sockets served another connection with another node numbering before.  Oracle: the LinkLayerCreate seen by a recording stack "
+    "a quarter of the sockets served another connection with another node numbering before; a third of the responses carry their two-valued fields "
+    "(measurement outcome, directionality flag) as bool, the type qlink-interface 1.0 declares for them; a quarter of the cases run as the second application on "
+    "a controller whose first application (closed before) used an EPR socket with the same or another (remote node, socket id) against another remote socket, "
+    "with a stack whose purpose ids are either socket id + k or a function of the remote socket id registered by setup_epr_socket.  Oracle: the LinkLayerCreate seen by a recording stack "
     "equals the call's parameters field by field (documented defaults otherwise) and converts with request_to_qlink_1_0; "
     "result handle i reads response i.  Non-trivial = >=2 pairs or a non-default parameter; distinct by call tuple"
 )
 ASSUMPTIONS = [
-    "purpose id = EPR socket id (the harness stack's get_purpose_id)",
+    "purpose id = EPR socket id + k, or 11 + 5 * (remote socket id registered for (remote node, socket id)) + socket id + k (the harness stack's get_purpose_id); "
+    "either way it is what the stack answers at the time of the request",
     "creator-side R (remote state preparation) results are delivered as measure-type responses, receiver-side as keep-type",
 ]
 SHARDS = {"quick": 2, "thorough": 16}
@@ -154,7 +158,58 @@ def st_case(draw):
         }
     if case.get("before", {}).get("sequential"):
         case["early"] = True
+    # the two-valued fields of a response (measurement outcome, directionality flag) may be bool objects: qlink-interface 1.0
+    # declares them so, and the controller hands a response's fields on as they are
+    case["flags"] = draw(st.sampled_from([None, None, "bool"]))
+    # the controller may have run another application before (closed by now) whose EPR socket had the same or another
+    # (remote node, socket id) and was opened against another remote socket; the stack's purpose ids may depend on what
+    # setup_epr_socket registered (purpose_table) instead of on the socket id alone
+    case["previous_app"] = None
+    if draw(st.integers(0, 3)) == 0:
+        p_api = draw(st.sampled_from(["create_measure", "recv_measure", "create_keep", "recv_keep"]))
+        p_n = draw(st.integers(1, 2))
+        case["previous_app"] = {
+            "api": p_api,
+            "number": p_n,
+            "socket_id": draw(st.sampled_from([case["socket_id"], case["socket_id"], case["socket_id"], 2])),
+            "remote": draw(st.sampled_from([case["remote"], case["remote"], "bob", "charlie"])),
+            "remote_socket_id": draw(st.sampled_from([0, 2, 4, 7])),
+            "responses": [{"create_id": 9000 + 11 * i, "sequence_number": 9001 + 11 * i, "goodness": 9002 + 11 * i, "goodness_time": 9003 + 11 * i,
+                           "bell_state": draw(st.integers(0, 3)), "measurement_outcome": draw(st.integers(0, 1)), "measurement_basis": 0} for i in range(p_n)],
+        }
+    case["purpose_table"] = draw(st.booleans()) if case["previous_app"] else draw(st.integers(0, 3)) == 0
     return case
+
+
+def table_stack_cls():
+    """ScriptedNetworkStack whose purpose id for (remote node, socket id) is a function of the remote socket id that
+    setup_epr_socket registered last for that pair (the two nodes of a link agree on such a number)."""
+    from vlib import net
+
+    class TableStack(net.ScriptedNetworkStack):
+        def __init__(self, executor):
+            super().__init__(executor)
+            self.table: Dict[Any, int] = {}
+            self.use_table = False
+
+        def setup_epr_socket(self, epr_socket_id, remote_node_id, remote_epr_socket_id, timeout=1.0):
+            self.table[remote_node_id, epr_socket_id] = remote_epr_socket_id
+            return super().setup_epr_socket(epr_socket_id, remote_node_id, remote_epr_socket_id, timeout=timeout)
+
+        def get_purpose_id(self, remote_node_id: int, epr_socket_id: int) -> int:
+            if not self.use_table:
+                return super().get_purpose_id(remote_node_id, epr_socket_id)
+            return 11 + 5 * self.table[remote_node_id, epr_socket_id] + epr_socket_id + self.purpose_offset
+
+    return TableStack
+
+
+def purpose_of(case, socket_id: int, remote_socket_id: int) -> int:
+    """the oracle's own account of the stack's numbering"""
+    off = case.get("purpose_offset", 0)
+    if case.get("purpose_table"):
+        return 11 + 5 * remote_socket_id + socket_id + off
+    return socket_id + off
 
 
 def check(case) -> Dict[str, Any]:
@@ -174,11 +229,55 @@ def check(case) -> Dict[str, Any]:
         _c0, conn0 = sim.fresh(sim.TraceExecutor, network_stack_cls=net.ScriptedNetworkStack, epr_sockets=[sock], hardware_config=hw, max_qubits=5, node_ids=dict(case["reused_socket"]))
         conn0.flush()
         conn0.close()
-    ctrl, conn = sim.fresh(sim.TraceExecutor, network_stack_cls=net.ScriptedNetworkStack, epr_sockets=[sock], hardware_config=hw, max_qubits=5, node_ids=node_ids)
+    bool_flags = case.get("flags") == "bool"
+    prev = case.get("previous_app")
+    ev0 = 0
+    if prev:
+        # an earlier application on the same controller, finished and closed before the one under test starts
+        sock_p = EPRSocket(prev["remote"], epr_socket_id=prev["socket_id"], remote_epr_socket_id=prev["remote_socket_id"])
+        ctrl, conn_p = sim.fresh(sim.TraceExecutor, network_stack_cls=table_stack_cls(), epr_sockets=[sock_p], hardware_config=hw, max_qubits=5, node_ids=node_ids)
+        stack = ctrl.network_stack
+        stack.purpose_offset = case.get("purpose_offset", 0)
+        stack.use_table = bool(case.get("purpose_table"))
+        p_role = "create" if prev["api"].startswith("create") else "recv"
+        p_tp = "K" if prev["api"].endswith("keep") else "M"
+        p_purpose = purpose_of(case, prev["socket_id"], prev["remote_socket_id"])
+        p_result = getattr(sock_p, prev["api"])(number=prev["number"])
+        p_fields = [dict(r) for r in prev["responses"]]
+        if bool_flags:
+            for f in p_fields:
+                f["measurement_outcome"] = bool(f["measurement_outcome"])
+                f["directionality_flag"] = p_role == "recv"
+        stack.expect(p_role, p_tp, prev["number"], p_fields, remote_node_id=node_ids[prev["remote"]], purpose_id=p_purpose)
+        if p_tp == "K":
+            for q in p_result:
+                q.measure()
+        try:
+            conn_p.flush()
+        except sim.WouldBlock:
+            raise Failure(f"blocks:previous-application:{prev['api']}", case, f"{prev['api']} of an earlier application on the controller: the program waits forever although its responses were offered")
+        if p_role == "create":
+            if len(stack.requests) != 1:
+                raise Failure("request-count:previous-application", case, f"stack received {len(stack.requests)} requests from the earlier application's {prev['api']}")
+            for fld, want_p in (("purpose_id", p_purpose), ("remote_node_id", node_ids[prev["remote"]]), ("number", prev["number"])):
+                if getattr(stack.requests[0], fld) != want_p:
+                    raise Failure(f"request-field:{fld}:previous-application", case, f"{prev['api']} of an earlier application: network stack received {fld}={getattr(stack.requests[0], fld)!r}, the call asked for {want_p!r}")
+        conn_p.close()
+        if stack.plan:
+            raise Failure("responses-not-consumed:previous-application", case, f"{len(stack.plan)} scripted responses of the earlier application were never waited for")
+        # the recording starts afresh for the application under test
+        stack.requests.clear()
+        stack.delivered.clear()
+        stack.n_create_expected = 0
+        ev0 = len(getattr(ctrl._executor, "events", []))
+        ctrl, conn = sim.fresh(sim.TraceExecutor, ctrl=ctrl, reset=False, epr_sockets=[sock], hardware_config=hw, max_qubits=5, node_ids=node_ids)
+    else:
+        ctrl, conn = sim.fresh(sim.TraceExecutor, network_stack_cls=table_stack_cls(), epr_sockets=[sock], hardware_config=hw, max_qubits=5, node_ids=node_ids)
     stack = ctrl.network_stack
     stack.purpose_offset = case.get("purpose_offset", 0)
+    stack.use_table = bool(case.get("purpose_table"))
     remote_id = node_ids[case["remote"]]
-    purpose = case["socket_id"] + stack.purpose_offset
+    purpose = purpose_of(case, case["socket_id"], case["remote_socket_id"])
     kw: Dict[str, Any] = {}
     for k, v in case["kw"].items():
         if k == "time_unit":
@@ -202,7 +301,12 @@ def check(case) -> Dict[str, Any]:
             seq_out = conn.new_array(before["number"])
             bkw2.update(sequential=True, post_routine=lambda c, q, pair: q.measure(future=seq_out.get_future_index(pair)))
         before_result = getattr(sock, before["api"])(number=before["number"], **bkw2)
-        stack.expect(b_role, b_tp, before["number"], [dict(r) for r in before["responses"]], remote_node_id=remote_id, purpose_id=purpose)
+        b_fields = [dict(r) for r in before["responses"]]
+        if bool_flags:
+            for f in b_fields:
+                f["measurement_outcome"] = bool(f["measurement_outcome"])
+                f["directionality_flag"] = b_role == "recv"
+        stack.expect(b_role, b_tp, before["number"], b_fields, remote_node_id=remote_id, purpose_id=purpose)
         if before.get("sequential"):
             pass  # the post routine consumes the pairs
         elif b_tp == "K":
@@ -253,6 +357,10 @@ def check(case) -> Dict[str, Any]:
         if case.get("wire"):
             f["as_qlink10"] = True
             f["qlink10_int"] = case["wire"] == "qlink10-int"
+        if bool_flags:
+            # (the directionality flag tells the controller which side asked: it has to agree with the role)
+            f["measurement_outcome"] = bool(f["measurement_outcome"])
+            f["directionality_flag"] = role == "recv"
         fields.append(f)
     stack.expect(role, tp, number, fields, remote_node_id=remote_id, purpose_id=purpose)
     if case.get("early") and role == "recv":
@@ -263,6 +371,9 @@ def check(case) -> Dict[str, Any]:
         # on single-communication-qubit hardware a state-preparation / context request for >= 2 pairs waits for a response that
         # cannot be applied (qubit-id assignment, C09/C10's subject and open finding): inconclusive for this property.
         # Anywhere else a wait that never ends means the responses did not reach the request.
+        if role == "create" and stack.requests and stack.requests[-1].purpose_id != purpose:
+            # (the request went out for another socket: that is why its responses are not recognised)
+            raise Failure("request-field:purpose_id", case, f"{api}: network stack received purpose_id={stack.requests[-1].purpose_id!r}, the stack's purpose id for socket {case['socket_id']} (remote socket {case['remote_socket_id']}) is {purpose!r}; the program then waits forever")
         if case["hardware"] == "nv" and (number >= 2 or (before and before["number"] >= 2)) and (api.startswith("recv_rsp") or is_ctx or kw.get("sequential")):
             return {"rejected": f"blocked:{api}:{case['hardware']}"}
         raise Failure(f"blocks:{api}", case, f"{api}: the program waits forever although all {number} responses were offered (requests outstanding: create {dict(ctrl._executor._epr_create_requests)}, recv {dict(ctrl._executor._epr_recv_requests)})")
@@ -368,14 +479,18 @@ def check(case) -> Dict[str, Any]:
         return v
 
     def expect_eq(what, got, want, i):
-        g = got.value if hasattr(got, "_connection") else got
+        try:
+            g = got.value if hasattr(got, "_connection") else got
+        except Exception as e:
+            # a handle whose entry was written by the controller must be readable whatever integer-like object the response carried
+            raise Failure(f"result-unreadable:{what}", case, f"{api}: pair {i}: reading {what} raised {type(e).__name__}: {str(e).splitlines()[0][:160]}; link-layer response {i} has {want!r}")
         w = want.value if hasattr(want, "value") and not hasattr(want, "_connection") else want
         if g != w:
             raise Failure(f"result:{what}", case, f"{api}: pair {i}: {what} reads {g!r}, link-layer response {i} has {w!r}")
 
     if is_ctx:
         # no per-pair handles besides the qubit: every delivered qubit was consumed by the body of its own iteration
-        measured = [e for e in getattr(ctrl._executor, "events", []) if e[0] == "meas"]
+        measured = [e for e in getattr(ctrl._executor, "events", [])[ev0:] if e[0] == "meas"]
         n_meas_before = n_before if before and before["api"].endswith("keep") else 0
         if len(measured) != number + n_meas_before or len(delivered) != number:
             raise Failure("result:context-iterations", case, f"{api}: the context body measured {len(measured)} qubits for {number} pairs ({len(delivered)} responses delivered)")
@@ -428,6 +543,17 @@ def check(case) -> Dict[str, Any]:
     return info
 
 
+def c11_prev_labels(case) -> List[str]:
+    prev = case.get("previous_app")
+    if not prev:
+        return []
+    same_key = prev["socket_id"] == case["socket_id"] and prev["remote"] == case["remote"]
+    out = ["after-application:" + prev["api"]]
+    if same_key:
+        out.append("after-application:same-node-and-socket-id:" + ("other-remote-socket" if prev["remote_socket_id"] != case["remote_socket_id"] else "same-remote-socket"))
+    return out
+
+
 def shard(ctx: Ctx) -> None:
     stt = ctx.stats
     n = 1000 if ctx.tier == "quick" else 10000
@@ -439,7 +565,7 @@ def shard(ctx: Ctx) -> None:
             stt.evaluations += 1
             return
         nt = case["number"] >= 2 or bool(case["kw"])
-        labels = [case["api"], f"pairs:{case['number']}", case["hardware"]] + [f"kw:{k}" for k in case["kw"]] + (["deprecated-alias"] if case.get("alias") else []) + (["after:" + case["before"]["api"] + (":sequential-with-waiting-pair" if case["before"].get("sequential") else "")] if case.get("before") else []) + (["responses-before-the-receive-instruction"] if case.get("early") else []) + (["wire:" + case["wire"]] if case.get("wire") else []) + (["socket-served-another-connection-before"] if case.get("reused_socket") else [])
+        labels = [case["api"], f"pairs:{case['number']}", case["hardware"]] + [f"kw:{k}" for k in case["kw"]] + (["deprecated-alias"] if case.get("alias") else []) + (["after:" + case["before"]["api"] + (":sequential-with-waiting-pair" if case["before"].get("sequential") else "")] if case.get("before") else []) + (["responses-before-the-receive-instruction"] if case.get("early") else []) + (["wire:" + case["wire"]] if case.get("wire") else []) + (["socket-served-another-connection-before"] if case.get("reused_socket") else []) + (["response-flags-as-bool"] if case.get("flags") == "bool" else []) + (["purpose-id-from-registered-remote-socket"] if case.get("purpose_table") else []) + c11_prev_labels(case)
         stt.case({k: v for k, v in case.items()}, nt, labels, sample={k: case[k] for k in ("role", "api", "number", "kw", "hardware")})
 
     ctx.search(st_case(), body, n, name="c11")
